@@ -25,6 +25,10 @@ Definition x_check : copts := mkCO false false false false false [] [true; true]
 Lemma x_slot j : slot_of x_c 0 j = match j with 0 => SFile x_f1 0 (mkFB SBlk 0 (x_hashf 11%N 1024%N)) | 1 => SFile x_f2 0 (mkFB SBlk 0 (x_hashf 12%N 1024%N)) | _ => SEmpty end.
 Proof. destruct j as [|[|j]]; try reflexivity. unfold slot_of, slots. cbn. destruct j; reflexivity. Qed.
 
+(* the example hash is injective on the block id (for a given length) *)
+Lemma x_hash_inj b b' len : hval_eqb (x_hashf b len) (x_hashf b' len) = true -> b = b'.
+Proof. unfold x_hashf. cbn [hval_eqb]. intro H. apply N.eqb_eq in H. apply N.add_cancel_r in H. apply N.mul_cancel_r in H; [exact H | discriminate]. Qed.
+
 Lemma x_plain_fix : plain 2 x_fix.
 Proof. constructor; try reflexivity; intros l; destruct l as [|[|l]]; intros; cbn; auto; try lia; destruct l; reflexivity. Qed.
 Lemma x_plain_check : plain 2 x_check.
@@ -63,7 +67,9 @@ Proof.
     destruct i as [|[|i]]; [reflexivity | vm_compute in Hb; discriminate Hb | destruct i; vm_compute in Hb; discriminate Hb].
   - intros i e He Hb. vm_compute in He. destruct He as [He|[]]. subst e.
     destruct i as [|[|i]]; [reflexivity | vm_compute in Hb; discriminate Hb | destruct i; vm_compute in Hb; discriminate Hb].
-  - intros e b He Hs. vm_compute in He. destruct He as [He|[]]. subst e. vm_compute in Hs. discriminate Hs.
+  - intros fsx e b He Hs. vm_compute in He. destruct He as [He|[]]. subst e.
+    destruct (search_fetch_hash x_hashf x_bs _ fsx _ b Hs) as [f [i [Ef Eh]]]. cbn in Ef. injection Ef as Ef1 Ef2. subst f i.
+    unfold x_hashf in Eh. cbn in Eh. apply N.eqb_eq in Eh. unfold x_bs in Eh. cbn. lia.
   - vm_compute. lia.
   - cbn. lia.
   - intros j f idx b H. slot_inv H; reflexivity.
